@@ -142,6 +142,13 @@ func (c *c05gen) file(pkg string, idx int) string {
 		default: // plain defined type right after the previous declaration (no blank line)
 			c.lead("")
 			fmt.Fprintf(&c.b, "type %s int%s\n", name, c.trail())
+			if c.g.Chance(0.35) {
+				// an alias declaration with a doc comment of its own: the comment documents the alias, it
+				// must not reach the type the alias stands for (gengo has no entry for the alias itself)
+				c.n++
+				fmt.Fprintf(&c.b, "\n// alias doc %d +aliastag%d=x\ntype %szalias = %s\n", c.n, c.n, name, c.g.Pick([]string{name, name, "int", "string"}))
+				c.cls["alias-declaration-with-doc"] = true
+			}
 			if g.Chance(0.5) {
 				fmt.Fprintf(&c.b, "type %sb string%s\n", name, c.trail())
 				c.cls["adjacent-declarations"] = true
@@ -188,6 +195,9 @@ func c05oracle(filename, src string) (groups string, decls string, pkgLine int, 
 			for _, sp := range x.Specs {
 				switch s := sp.(type) {
 				case *ast.TypeSpec:
+					if s.Assign.IsValid() {
+						continue // an alias declaration: gengo has no entry of its own for it
+					}
 					add("type:"+s.Name.Name, s.Name.Pos(), true)
 					switch t := s.Type.(type) {
 					case *ast.StructType:
